@@ -14,10 +14,10 @@ from mc.fd import build, snap
 LEVEL = "model_checking"
 
 
-def spec_text(h: int, r: int, order: int) -> str:
+def spec_text(h: int, r: int, order: int, n: str = "2") -> str:
     wheres = [f"where len(str(<start>)) >= 0 and {i} >= 0" for i in range(h)]
     reps = "".join(f" <i{k}>" + "{int(<n>)}" for k in range(r))
-    rules = [f"<start> ::= <n>{reps}", '<n> ::= "2"'] + [f'<i{k}> ::= "x"' for k in range(r)]
+    rules = [f"<start> ::= <n>{reps}", f'<n> ::= "{n}"'] + [f'<i{k}> ::= "x"' for k in range(r)]
     if order == 0:  # hard constraints first
         lines = wheres + rules
     elif order == 1:  # grammar (repetitions) first
@@ -49,15 +49,16 @@ def work(item):
     from fandango.constraints.repetition_bounds import RepetitionBoundsConstraint
     from fandango.constraints.soft import SoftValue
 
-    h, r, order, api = item
-    text = spec_text(h, r, order)
+    h, r, order, api = item[:4]
+    n = item[4] if len(item) > 4 else "2"   # "0": every computed repetition legitimately has zero iterations
+    text = spec_text(h, r, order, n)
     spec = build(text)
     cons = spec.constraints
     n_rep = sum(isinstance(c, RepetitionBoundsConstraint) for c in cons)
     n_hard = len(cons) - n_rep
     if (n_hard, n_rep) != (h, r):
         return {"internal": f"spec has ({n_hard},{n_rep}) constraints, wanted ({h},{r})", "case": item}
-    word = "2" + "xx" * r
+    word = n + "x" * int(n) * r
     tree = spec.grammar.parse(word)
     if tree is None:
         return {"internal": f"satisfying word {word!r} does not parse", "case": item}
@@ -73,8 +74,8 @@ def work(item):
         fitness = st.value[0]
     out = {"h": h, "r": r, "order": order, "fitness": repr(fitness), "yielded": len(yielded), "viol": []}
     if len(yielded) != 1 or yielded[0] is not tree:
-        out["viol"].append({"kind": "satisfying_tree_not_accepted", "h": h, "r": r, "order": order, "fitness": repr(fitness),
-                            "spec": text if h + r <= 6 else f"spec_text({h},{r},{order})", "sig": f"not_accepted:fitness={fitness!r}"})
+        out["viol"].append({"kind": "satisfying_tree_not_accepted", "h": h, "r": r, "order": order, "n": n, "fitness": repr(fitness),
+                            "spec": text if h + r <= 6 else f"spec_text({h},{r},{order},{n!r})", "sig": f"not_accepted:n={n}:fitness={fitness!r}"})
     if api:
         import random
         spec2 = build(text)
@@ -101,6 +102,8 @@ def run(ctx: Ctx) -> None:
                 continue
             for order in range(3):
                 items.append((h, r, order, (h + r <= (8 if ctx.quick else 12)) and order == 0))
+            if r >= 1 and h <= 6 and r <= 6:
+                items.append((h, r, 0, h + r <= 4, "0"))
     results = pmap_tagged(work, items, chunk=4)
     fitness_values = set()
     api_runs = 0
